@@ -78,7 +78,9 @@ func (a *Aliases) Dump() map[string]Alias {
 
 // UpdateMap is used for auto-completions. It takes an existing map and updates it's values rather than copying data
 func (a *Aliases) UpdateMap(m map[string]bool) {
+	a.mutex.Lock()
 	for name := range a.aliases {
 		m[name] = true
 	}
+	a.mutex.Unlock()
 }
